@@ -227,7 +227,7 @@ def check_metric(prog, rep, m, c):
 # ------------------------------------------------------------------------------------------------ A3 tables
 def check_tables(prog, rep, m, c):
     """neighbourhood tables by position: returns {'8': (list0, list1), '4': ...} of the structure function's result"""
-    pub = c.pub
+    pub = getattr(c, 'kscope', None) or c.pub        # the function that calls the kernel (the public one or its helper)
     # the call whose two results reach the kernel's table parameters
     tcall = None
     for n in pub.own_nodes():
@@ -264,6 +264,7 @@ def check_tables(prog, rep, m, c):
                 'result %d of the structure function)' % (label, len(want), pos_rows, pos_cols))
     # connectivity validated: the public function raises exactly for values other than 4 and 8
     from ..wterm import WT, eval_cond
+    pub = c.pub
     w = WT(prog, depth=2)
     w.run(pub)
     cparam = 'connectivity' if 'connectivity' in pub.params else None
@@ -1081,14 +1082,21 @@ def check(prog, rep):
     c.pub = pub
     # the search kernel: the jit function the wrapper calls that contains a while loop
     kc = None
-    for n in pub.own_nodes():
-        if isinstance(n, ast.Call):
-            t = prog.resolve_callable(pub, m, n.func)
-            if isinstance(t, Func) and t.jit is not None and any(isinstance(x, ast.While) for x in t.own_nodes()):
-                kc = (n, t)
+    kscope = pub
+    # the call of the search kernel: in the public function or in a Python-level helper of the module it calls
+    from ..backends import callees as _callees
+    scopes = [pub] + [g for g in _callees(prog, pub) if isinstance(g, Func) and g.jit is None and prog.same_unit(m, g.module) and not g.is_lambda]
+    for sc in scopes:
+        for n in sc.own_nodes():
+            if isinstance(n, ast.Call):
+                t = prog.resolve_callable(sc, m, n.func)
+                if isinstance(t, Func) and t.jit is not None and any(isinstance(x, ast.While) for x in t.own_nodes()) and kc is None:
+                    kc = (n, t)
+                    kscope = sc
     if kc is None:
         raise AnalysisIncomplete('a_star_search: search kernel call not found')
     call, kern = kc
+    c.kscope = kscope
     c.kernel = kern
     c.kargs = {}
     for p, a in zip(kern.params, call.args):
@@ -1193,7 +1201,7 @@ def check(prog, rep):
             img_actual = a
     if img_actual is None:
         return
-    ok = nan_image(prog, m, pub, img_actual)
+    ok = nan_image(prog, m, kscope, img_actual)
     rep.add('A4', pub, ENTRY, 'path image %s is NaN-initialised' % (norm(img_actual) if img_actual is not None else None),
             call.lineno, ok, 'cells off the path (and everything when no route exists) must be NaN: the image handed to the '
             'search must be a fresh float array filled with NaN')
